@@ -197,7 +197,28 @@ def _job_circuit_dispatch(tier, rng):
     (q0, gate.array, index) and threads its result; unknown kinds are rejected. Closed obligations (no symbolic value)."""
     out = []
     fns = ['numqi.sim.circuit:Circuit.apply_state']
-    body, info = extract_loop(numqi.sim.Circuit.apply_state, 0)
+    # the loop over the recorded gates that threads the state (selected by what it does, not by its position in the function)
+    try:
+        body, info = extract_loop(numqi.sim.Circuit.apply_state, select=lambda head, bod: 'gate_index_list' in head and 'q0' in bod)
+    except LookupError as e:
+        return [ob(f'{PROP}.Circuit.apply_state.loop_body.explore', 'undecided', functions=fns, tier='P', backend='exact-eval', detail=f'loop cut: {e}')]
+    if not set(info['params']) <= {'gate', 'index', 'q0', 'self'}:
+        return [ob(f'{PROP}.Circuit.apply_state.loop_body.explore', 'undecided', functions=fns, tier='P', backend='exact-eval', detail=f'the loop body reads locals the harness does not know: {info["params"]}')]
+
+    def native_dispatch_ok(kind):
+        # replay of a recorder mismatch on the real method: one gate of that kind on a numeric state against the embedded-operator oracle
+        try:
+            n = 3; q = _rc(rng, 2 ** n); U1 = numqi.random.rand_haar_unitary(2, seed=3)
+            c = numqi.sim.Circuit()
+            if kind == 'unitary':
+                c.single_qubit_gate(U1, 2); ref = SS.embed(U1, [2], n) @ q
+            elif kind == 'control':
+                c.controlled_single_qubit_gate(U1, {0}, 2); ref = SS.ctrl_embed(U1, [0], [2], n) @ q
+            else:
+                return True
+            return bool(np.abs(c.apply_state(q) - ref).max() < 1e-10)
+        except Exception:
+            return False
     cases = []
     q_in = _Tok('q_in')
     A = _Tok('gate.array')
@@ -219,9 +240,11 @@ def _job_circuit_dispatch(tier, rng):
             ok = len(calls) == 1 and calls[0][0] == 'apply_control_n_gate' and calls[0][1] is q_in and calls[0][2] is A and calls[0][3] == index[0] and calls[0][4] == index[1] and res['q0'].t == 'cg'
         else:
             ok = len(calls) == 1 and calls[0] == ('forward', q_in) and res['q0'].t == 'fwd'
-        out.append(ob(f'{PROP}.Circuit.apply_state.loop_body.dispatch[{kind}]', 'proved' if ok else 'refuted', functions=fns, tier='P',
-                      backend='exact-eval (loop body cut from source, recorder stubs)', witness=None if ok else dict(kind=kind, calls=repr(calls)),
-                      native=dict(confirmed=not ok), detail='' if ok else 'one loop iteration does not apply exactly (gate.array, index) through the proved function'))
+        nat = True if ok else native_dispatch_ok(kind)
+        verdict = 'proved' if ok else ('undecided' if nat else 'refuted')
+        out.append(ob(f'{PROP}.Circuit.apply_state.loop_body.dispatch[{kind}]', verdict, functions=fns, tier='P',
+                      backend='exact-eval (loop body cut from source, recorder stubs)', witness=None if verdict != 'refuted' else dict(kind=kind, calls=repr(calls)),
+                      native=dict(confirmed=verdict == 'refuted'), detail='' if ok else ('one loop iteration does not apply exactly (gate.array, index) through the proved function' + (' [the recorder cannot follow the restructured code: the real method is correct on a numeric replay -> undecided]' if nat else ''))))
     # unknown kind must be rejected
     class G2:
         kind = 'weird'; array = A
